@@ -101,17 +101,34 @@ func runC09(c *engine.Ctx) {
 			}
 		}
 	}
+	if c.Thorough() {
+		// one-dimensional sweeps: every exponent 2^k and 2^k - 1 (k = 0..2048) against a fixed peer, and every
+		// peer value 2^k against a fixed exponent, both groups
+		for gi := 0; gi < 2; gi++ {
+			g := ref.GroupByID(dhIDs[gi])
+			fy := new(big.Int).SetBytes(g.Public(big.NewInt(12345)))
+			fx := new(big.Int).SetBytes(univ.Pat(32, 77))
+			for k := uint(0); k <= 2048; k++ {
+				if !c.Mine() {
+					continue
+				}
+				c09Exp(c, gi, pow2(k), fy)
+				c09Exp(c, gi, new(big.Int).Sub(pow2(k), big.NewInt(1)), fy)
+				c09Exp(c, gi, fx, pow2(k))
+			}
+		}
+	}
 	bound := 2
 	if c.Thorough() {
-		bound = 3
+		bound = 4
 	}
-	for _, fn := range []string{"GenerateRandomNumber", "GenerateRandomUint8", "CalculateDiffieHellmanMaterials", "NewIKESAKey"} {
+	for _, fn := range []string{"GenerateRandomNumber", "GenerateRandomUint8", "CalculateDiffieHellmanMaterials", "CalculateDiffieHellmanMaterials×2", "NewIKESAKey"} {
 		fn := fn
 		if !c.Mine() {
 			continue
 		}
 		b := bound
-		if fn == "NewIKESAKey" || fn == "CalculateDiffieHellmanMaterials" {
+		if fn == "NewIKESAKey" || fn == "CalculateDiffieHellmanMaterials" || fn == "CalculateDiffieHellmanMaterials×2" {
 			b = bound - 1 // each execution costs two 2048-bit exponentiations
 		}
 		st := engine.Explore(b, 0, func(r *engine.Run) { c09Rand(c, fn, r) }, func(r *engine.Run) {})
@@ -212,11 +229,12 @@ var two2048 = pow2(2048)
 // c09Rand runs one random-consuming function under the scripted source of run r.
 func c09Rand(c *engine.Ctx, fn string, r *engine.Run) {
 	c.Evals++
+	fn0 := fn
 	menu := []int{engine.AnsA, engine.AnsZero, engine.AnsFF, engine.AnsShort, engine.AnsErr}
 	seam := engine.NewSeam(r, menu)
 	restore := engine.Install(seam)
 	defer restore()
-	mk := func() c09Case { return c09Case{K: "rand", Fn: fn, Env: r.Choices()} }
+	mk := func() c09Case { return c09Case{K: "rand", Fn: fn0, Env: r.Choices()} }
 	var n1, n2 *big.Int
 	var err1, err2 error
 	var u1 uint8
@@ -238,6 +256,50 @@ func c09Rand(c *engine.Ctx, fn string, r *engine.Run) {
 	case "CalculateDiffieHellmanMaterials":
 		k := infoSA(c07Case{PRF: 1, Integ: 1, Encr: 0, DH: 0})
 		pi = engine.Catch(func() { pub, sh, err1 = security.CalculateDiffieHellmanMaterials(k, []byte{2}); reads1 = seam.Consumed() })
+	case "CalculateDiffieHellmanMaterials×2":
+		// two calls on the same key object with the same peer value (a retransmitted request): each call draws
+		// a fresh exponent from the source
+		k := infoSA(c07Case{PRF: 1, Integ: 1, Encr: 0, DH: 0})
+		var pub2 []byte
+		pi = engine.Catch(func() {
+			pub, sh, err1 = security.CalculateDiffieHellmanMaterials(k, []byte{2})
+			reads1 = seam.Consumed()
+			if err1 == nil {
+				pub2, _, err2 = security.CalculateDiffieHellmanMaterials(k, []byte{2})
+			}
+		})
+		if pi == nil && err1 == nil {
+			failedSecond := false
+			used := 0
+			for _, rec := range seam.Log {
+				if rec.Answer == engine.AnsErr && used >= reads1 {
+					failedSecond = true
+				}
+				used += rec.Served
+			}
+			switch {
+			case err2 == nil && seam.Consumed() <= reads1:
+				restore()
+				c.Violate("source-not-consumed/second-call", "the second CalculateDiffieHellmanMaterials on the same key object read nothing from the random source", mk())
+				return
+			case err2 == nil && bytes.Equal(pub, pub2) && r.Deviations() == 0:
+				restore()
+				c.Violate("exponent-repeats/same-key-object", "two calls on the same key object return the same public value", mk())
+				return
+			case err2 == nil && failedSecond:
+				restore()
+				c.Violate("source-failure-swallowed/second-call", "the source failed during the second call and a public value was returned", mk())
+				return
+			}
+		}
+		if pi == nil && err1 == nil && err2 != nil {
+			// the second call failed because the source failed during it: nothing more to check on this execution
+			restore()
+			c.Count("second_call_refused_on_source_failure", 1)
+			c.DistinctS(fn0 + strings.Join(seam.Answers(), ","))
+			return
+		}
+		fn = "CalculateDiffieHellmanMaterials"
 	case "NewIKESAKey":
 		prop, _ := infoSA(c07Case{PRF: 1, Integ: 1, Encr: 0, DH: 0}).ToProposal()
 		pi = engine.Catch(func() { sa, pub, err1 = security.NewIKESAKey(prop, []byte{2}, univ.Pat(32, 1), 1, 2); reads1 = seam.Consumed() })
